@@ -67,7 +67,6 @@ func VP_C04_bitmap_isset() {
 	bm := FromBytes(b)
 	// KF-C04-1: IsSet checks byteNumber > len instead of >=: locations len*8 .. len*8+7 index
 	// one byte past the map
-	vp.KnownPanic("KF-C04-1", "Bitmap).IsSet")
 	vp.NoPanic()
 	got, err := bm.IsSet(loc)
 	vp.AllowPanic()
